@@ -446,7 +446,7 @@ func FocusFilter(p *core.Program, r *core.Report, rule string) {
 					case *ast.AssignStmt:
 						if len(x.Rhs) == 1 {
 							if c, ok := ast.Unparen(x.Rhs[0]).(*ast.CallExpr); ok && core.IsBuiltinCall(ginfo, c, "append") && len(c.Args) == 2 {
-								if n, _ := callName(ginfo, c.Args[1]); n == "newConnlistAnalyzerWarning" {
+								if n, _ := callName(ginfo, ResolveLocal(ginfo, g.Decl.Body, c.Args[1])); n == "newConnlistAnalyzerWarning" {
 									okWarn = true
 								}
 							}
